@@ -91,7 +91,10 @@ def _jac(ctx, p, rng):
     ctx.ok('jacobian', ('jac', N, M, p['point'], style), noise=worst)
     # --- init_jac_vec / extract_jac_vec
     try:
-        X = UTPM.init_jac_vec(x.copy(), v.copy())
+        xarg = x.copy()
+        if p['point'] == 'int':
+            xarg = [x.astype(int), [int(t) for t in x], x.copy()][style % 3]       # int ndarray / list of ints / float
+        X = UTPM.init_jac_vec(xarg, v.copy())
         Y = PP.evaluate(algopy, polys, X, -1 - style)          # always a vector
         Jv = np.asarray(UTPM.extract_jac_vec(Y))
     except Exception as e:
@@ -133,7 +136,7 @@ def _hess(ctx, p, rng):
                 ctx.violation('hessian:value:%s' % ('diag' if i == j else 'offdiag'), {'N': N, 'i': i, 'j': j, 'got': float(H[i, j]), 'want': float(Hq[i][j](xq)), 'x': x.tolist()}); return
     ctx.ok('hessian', ('hess', N, p['point'], style), noise=worst)
     try:
-        X = UTPM.init_hess_vec(x.copy(), v.copy())
+        X = UTPM.init_hess_vec(x.astype(int) if (p['point'] == 'int' and style % 2) else x.copy(), v.copy())
         Y = PP.evaluate(algopy, [poly], X, style)
         Hv = np.asarray(UTPM.extract_hess_vec(N, Y))
     except Exception as e:
